@@ -84,6 +84,7 @@ def run(ctx):
     strict = [h for h in hsn if h["calls"][0]["op"] != "iter-tolerant"]
     replay(ctx, [h for h in strict if (h["calls"][0]["s"] == 0 and -12 <= h["calls"][0]["a"] <= 3) or h["calls"][0]["op"] != "iter"], nonu, ["keplernum"])
     replay(ctx, [h for h in strict if h["calls"][0]["s"] != 0 and h["calls"][0]["a"] == 0], nonu, ["kepler", "sgp4"])
+    replay(ctx, [h for h in strict if h["calls"][0]["op"] == "propagate"], nonu, ["kepler", "j2", "sgp4", "cw"])      # propagate(Date) / propagate(timedelta)
     # ---- (B) histories: call sequences on shared objects --------------------------------------------------
     small = dict(base)
     small.update({"Starts": {-4, 0, 3}, "Spans": {-8, 5, 12}, "StepsOut": {3, 4}, "PropTimes": {-4, 5},
